@@ -62,6 +62,16 @@ def find_sites(ctx):
                         kp = func_params(keyl)
                         kn = {n.id for n in ast.walk(keyl.body) if isinstance(n, ast.Name)}
                     site = Site(ci.rel, ci, fn, cache_attr, kp, kn)
+                    if not shared:
+                        # a cache object created in the CLASS BODY (of this class or a base) and never per instance is one object for all instances
+                        per_instance = any(cache_attr in c_.stores for c_ in [ci] + [b for b in ctx.model.all_classes() if b.qual in getattr(ci, "base_names", [])]) \
+                            or any(isinstance(w, ast.Assign) and any(isinstance(t, ast.Attribute) and t.attr == cache_attr and dotted(t.value) == "self" for t in w.targets)
+                                   for c_ in ctx.model.all_classes() for m_ in c_.methods.values() for w in ast.walk(m_))
+                        class_level = any(isinstance(st_, ast.Assign) and any(isinstance(t, ast.Name) and t.id == cache_attr for t in st_.targets)
+                                          for c_ in ctx.model.all_classes() for st_ in getattr(c_.node, "body", []))
+                        if class_level and not per_instance:
+                            shared = True
+                            site.shared_why = "cache object created in the class body"
                     site.shared = shared
                     sites.append(site)
     return sites
@@ -100,12 +110,13 @@ def r1_keys(ctx, sites, rule="C26.R1", want_cls=lambda ci: True):
         if getattr(s, "shared", False):
             # cachetools.cached on a method: ONE cache object for all instances of the class, so the instance is part of what
             # the result depends on
+            why = getattr(s, "shared_why", "cachetools.cached")
             if "self" in s.key_names:
-                rep.ok(rule, C, "shared cache (cachetools.cached): the key contains the instance")
+                rep.ok(rule, C, f"shared cache ({why}): the key contains the instance")
             else:
                 rep.bad(rule, C, f"key=... hashkey({', '.join(sorted(s.key_names - {'hashkey', 'self'}))})",
-                        "the method is memoised with cachetools.cached, whose cache object is shared by all instances, but the key does not contain `self`: a second "
-                        "instance evaluated with the same arguments is served the first instance's result", f"{s.rel}:{s.fn.lineno}")
+                        f"the method's cache object is shared by all instances ({why}) but the key does not contain `self`: a second instance (another rod with another mesh or "
+                        "interpolation) evaluated with the same arguments is served the first instance's result", f"{s.rel}:{s.fn.lineno}")
         params = func_params(s.fn)[1:]
         body_reads = {n.id for st in s.fn.body for n in ast.walk(st) if isinstance(n, ast.Name) and isinstance(n.ctx, ast.Load)}
         for p in params:
@@ -480,4 +491,10 @@ MUTANTS += [
 MUTANTS += [
     dict(id="c26-r6-seed", canary=True, what="[seeded by sub-agent] Sphere2Sphere.n stores the centre distance as a side effect for n_q1_q2 to reuse", file="cardillo/contacts/sphere2sphere.py",
          old="        return r_C1C2 / norm(r_C1C2)\n", new="        self.d_C1C2 = norm(r_C1C2)\n        return r_C1C2 / self.d_C1C2\n", expect="C26.R6"),
+]
+MUTANTS += [
+    dict(id="c26-r1-classcache", canary=True, what="[seeded by sub-agent] the rods' _eval / _deval caches become class attributes (shared by all rods)", file="cardillo/rods/_base.py",
+         edits=[("cardillo/rods/_base.py", "        self._eval_cache = LRUCache(maxsize=nquadrature + 10)\n        self._deval_cache = LRUCache(maxsize=nquadrature + 10)\n", ""),
+                ("cardillo/rods/_base.py", "class CosseratRod_PetrovGalerkin(RodExportBase, ABC):\n", "class CosseratRod_PetrovGalerkin(RodExportBase, ABC):\n    _eval_cache = LRUCache(maxsize=64)\n    _deval_cache = LRUCache(maxsize=64)\n\n")],
+         expect="C26.R1"),
 ]
